@@ -348,7 +348,9 @@ func (x *Exec) freshValue(st *State, t types.Type, name string) Value {
 		case "len", "off":
 			st.assumeRaw(Le(IntLit(0), v))
 			st.assumeRaw(Le(v, IntLit(1<<40)))
-		case "ptr", "map", "opaque", "func", "base":
+		case "ptr", "map", "base":
+			st.assumeRaw(And(Le(IntLit(0), v), Le(v, IntLit(1<<48))))
+		case "opaque", "func":
 			st.assumeRaw(Le(IntLit(0), v))
 		}
 		return v
